@@ -40,14 +40,41 @@ pub fn mbox(args: &[&str]) -> Option<Vec<String>> {
         Err(_) => "PANIC".to_string(),
     };
     let m2 = m.clone();
+    // which mailbox header carries it: To (default), From, Sender, Cc, Bcc, Reply-To
+    let hk = args.get(2).copied().unwrap_or("t").to_string();
     let wire = match std::panic::catch_unwind(move || {
         let mut h = Headers::new();
-        h.set(header::To::from(Mailboxes::from(m2)));
-        let block = h.to_string();
-        let got = h.get::<header::To>().map(|t| {
-            let v: Vec<Mailbox> = Mailboxes::from(t).into();
+        let list = |v: Mailboxes| -> String {
+            let v: Vec<Mailbox> = v.into();
             v.iter().map(show_mb).collect::<Vec<_>>().join(",")
-        });
+        };
+        let got = match hk.as_str() {
+            "f" => {
+                h.set(header::From::from(Mailboxes::from(m2)));
+                h.get::<header::From>().map(|t| list(Mailboxes::from(t)))
+            }
+            "s" => {
+                h.set(header::Sender::from(m2));
+                h.get::<header::Sender>().map(|t| show_mb(&Mailbox::from(t)))
+            }
+            "c" => {
+                h.set(header::Cc::from(Mailboxes::from(m2)));
+                h.get::<header::Cc>().map(|t| list(Mailboxes::from(t)))
+            }
+            "b" => {
+                h.set(header::Bcc::from(Mailboxes::from(m2)));
+                h.get::<header::Bcc>().map(|t| list(Mailboxes::from(t)))
+            }
+            "r" => {
+                h.set(header::ReplyTo::from(Mailboxes::from(m2)));
+                h.get::<header::ReplyTo>().map(|t| list(Mailboxes::from(t)))
+            }
+            _ => {
+                h.set(header::To::from(Mailboxes::from(m2)));
+                h.get::<header::To>().map(|t| list(Mailboxes::from(t)))
+            }
+        };
+        let block = h.to_string();
         (block, got)
     }) {
         Ok((block, got)) => format!("{}:{}", hex(block.as_bytes()), got.unwrap_or("none".into())),
@@ -101,7 +128,16 @@ pub fn mboxlist(args: &[&str]) -> Option<Vec<String>> {
         }
         Err(_) => "err".to_string(),
     };
-    Some(vec![format!("ok:{}", hex(disp.as_bytes())), format!("{back}|conv:{conv}")])
+    // the list in a To header: the wire form, and whether `get` gives the list back
+    let wire = if given.is_empty() {
+        "-".to_string()
+    } else {
+        let mut h = Headers::new();
+        h.set(header::To::from(ms.clone()));
+        let got = h.get::<header::To>().map(|t| Vec::<Mailbox>::from(Mailboxes::from(t)).iter().map(show_mb).collect::<Vec<_>>().join(","));
+        format!("{};{}", hex(h.to_string().as_bytes()), got.unwrap_or("none".into()))
+    };
+    Some(vec![format!("ok:{}", hex(disp.as_bytes())), format!("{back}|conv:{conv}|wire:{wire}")])
 }
 
 /// `mboxparse <kind s|l> <text>` → the grammar's result (hook), the public parser's result, and
